@@ -29,7 +29,8 @@ Definition e_run (r : list report * list obs) : sexp := e_pair (e_list e_report)
    4: add_extra_citations (capture mode)     arg (db citations min_crossrefs)
    5: BST engine run, errors captured        arg (db citations min_crossrefs fields)
    6: Python engine format_bibliography, errors captured    (same)
-   7, 8: the same two in strict mode (the first report raises) *)
+   7, 8: the same two in strict mode (the first report raises)
+   9: Entry._find_field for every entry x every name   arg (db names use_bib_data) *)
 Definition dispatch (fn : Z) (a : sexp) : sexp :=
   let d := d_db (d_nth a 0) in
   match fn with
@@ -46,6 +47,9 @@ Definition dispatch (fn : Z) (a : sexp) : sexp :=
   | 6%Z => e_res e_run (format_bibliography d (d_list d_str (d_nth a 1)) (d_Z (d_nth a 2)) (d_list d_str (d_nth a 3)))
   | 7%Z => e_res (e_list e_obs) (strictly (bst_run d (d_list d_str (d_nth a 1)) (d_Z (d_nth a 2)) (d_list d_str (d_nth a 3))))
   | 8%Z => e_res (e_list e_obs) (strictly (format_bibliography d (d_list d_str (d_nth a 1)) (d_Z (d_nth a 2)) (d_list d_str (d_nth a 3))))
+  | 9%Z => let bd := if d_bool (d_nth a 2) then Some d else None in
+           e_list (fun ke : str * entry =>
+                     e_list (fun nm => e_res (e_opt e_str) (entry_find_field bd (snd ke) nm)) (d_list d_str (d_nth a 1))) d
   | _ => L []
   end.
 
